@@ -15,7 +15,7 @@ ID = 'C04'
 LEVEL = 'model_checking'
 TECHNIQUE = 'explicit-state BFS over transformation programs (real functions as transition relation), step invariants on every transition'
 
-LABELS = ['S', 'NP', 'VP', 'PP']
+LABELS = ['S', 'NP', 'VP', 'PP', 'CO', 'PRN']
 POS = ['NN', 'ART', 'VVFIN', 'APPR']
 PWORDS = [',', '"', '(']
 
